@@ -39,6 +39,7 @@ theorem NoFault.advance : NoFault advance := by
 theorem NoFault.cur : NoFault cur := ⟨by intro s w h; cases h⟩
 theorem NoFault.curTok : NoFault curTok := ⟨by intro s w h; cases h⟩
 theorem NoFault.curLoc : NoFault curLoc := ⟨by intro s w h; cases h⟩
+theorem NoFault.getString : NoFault getString := ⟨by intro s w h; cases h⟩
 theorem NoFault.fail {α} (k : DiagKind) (l : Loc) : NoFault (fail k l : P α) := ⟨by intro s w h; cases h⟩
 theorem NoFault.outOfFuel {α} : NoFault (outOfFuel : P α) := ⟨by intro s w h; cases h⟩
 
@@ -62,7 +63,7 @@ namespace Hex.Xcmp
 /-- One step of decomposing a `do` block of the parser into its components. -/
 macro "nf_step" : tactic => `(tactic| first
   | exact NoFault.pure _
-  | exact NoFault.advance | exact NoFault.cur | exact NoFault.curTok | exact NoFault.curLoc
+  | exact NoFault.advance | exact NoFault.cur | exact NoFault.curTok | exact NoFault.curLoc | exact NoFault.getString
   | exact NoFault.fail _ _ | exact NoFault.outOfFuel
   | exact NoFault.expect _ | exact NoFault.parseIdentifier
   | assumption
@@ -157,6 +158,8 @@ theorem post_parseIdentElement (fuel : Nat) : Post (parseIdentElement fuel) Iden
     · exact Post.pure _ (IdentShape.name _)
 
 theorem bind_cur {β} (f : LTok → P β) (s : PState) : (cur >>= f) s = f s.cur s := rfl
+theorem bind_curTok {β} (f : Tok → P β) (s : PState) : (curTok >>= f) s = f s.cur.tok s := rfl
+theorem bind_curLoc {β} (f : Loc → P β) (s : PState) : (curLoc >>= f) s = f s.cur.loc s := rfl
 
 /-- With an IDENTIFIER as current token, `parseElement` is its IDENTIFIER case. -/
 theorem parseElement_ident (fuel : Nat) (s : PState) (h : s.cur.tok = .IDENTIFIER) (e : Expr) (s' : PState)
@@ -183,7 +186,7 @@ theorem noFault_stmt : ∀ fuel, NoFault (parseStatement fuel) ∧ NoFault (pars
     refine ⟨?_, ?_⟩
     · constructor
       intro s w h
-      rw [parseStatement, bind_cur] at h
+      rw [parseStatement, bind_curLoc, bind_curTok] at h
       cases htok : s.cur.tok <;> simp only [htok] at h
       case IDENTIFIER =>
         -- the element is a call, a variable or a subscript
